@@ -34,8 +34,10 @@ impl Vector<Complex::<f64>> {
     pub fn norm_inf(&self) -> f64 {
         let mut result = self.vec[0].abs();
         for i in 1..self.size() {
-            if result < self.vec[i].abs() {
-                result = self.vec[i].abs();
+            let abs = self.vec[i].abs();
+            // a NaN element makes the norm NaN wherever it stands ( as it does in the first slot )
+            if result < abs || abs.is_nan() {
+                result = abs;
             }
         }
         result
